@@ -488,6 +488,19 @@ class Interp:
         d, l, path = r
         if getattr(self, "read_log", None) is not None and pl[1]:
             self.log_index(self.read_log, st, depth, pl, path)
+            if (d, l) != (depth, pl[0]) and isinstance(l, int):
+                # the place goes through a reference (an iterator item `*digit`, a `&digits[..n]` slice): the element read belongs to the array the
+                # reference points into, which may live in a caller's frame
+                stack = getattr(self, "fn_stack", None) or []
+                off = len(st.frames) - len(stack)           # frames below the first function frame hold the root's parameters / interned constants
+                fd = stack[d - off] if 0 <= d - off < len(stack) else None
+                if fd is not None:
+                    for stp in path:
+                        if stp[0] == "i":
+                            k = stp[1]
+                            lo, hi = (k, k) if isinstance(k, int) else k
+                            self.read_log.setdefault((fd["key"], l), []).append((lo, hi))
+                            break
         return self.read_path(st.frames[d].get(l, TOP), path)
 
     def focus_key(self, fv, pl):
@@ -544,6 +557,11 @@ class Interp:
             if not o[1][1]:
                 t = top_of(fv.locals[o[1][0]]["ty"])
                 return t
+        elif v[0] in ("ref", "sl") and not o[1][1] and fv.locals[o[1][0]]["ty"] in INT_TYPES:
+            # a scalar-typed local that holds a reference (an abstract collection handed out `&item` where the item type is the scalar itself): the value
+            # is the referent if it is a scalar, else any value of the type
+            tv = self.deref_val(st, v) if v[0] == "ref" else TOP
+            return tv if tv[0] == "i" else top_of(fv.locals[o[1][0]]["ty"])
         return v
 
     def intern_const(self, st, val):
@@ -820,6 +838,8 @@ class Interp:
                 inner = st.frames[depth].get(pl[0], TOP)
                 if inner[0] in ("sl", "ref", "cref"):
                     return inner
+                if inner[0] not in ("top", "i", "st", "arr", "en", "vec") and str(fv.locals[pl[0]].get("ty", "")).startswith(("&", "*const", "*mut")):
+                    return inner        # a domain token that stands for the pointer itself (a message, a context, a digest view): `&*p` is p
             r = self.resolve_place(st, depth, rv[2])
             if r is None:
                 # reference into constant data or unknown
@@ -863,6 +883,17 @@ class Interp:
         if k == "len":
             return self.length_of(st, self.read_place(st, depth, rv[1]))
         return TOP
+
+    def structural_bounds(self, fv, t):
+        """fallback for an index bound the interval domain cannot exclude: the `for i in 0..xs.len()` idiom, decided on def-use chains (lib/relbounds.py)"""
+        key = (fv.f["key"], t["line"], str(t.get("msg_ops")))
+        memo = self.__dict__.setdefault("_relb", {})
+        if key not in memo:
+            import relbounds
+            memo[key] = relbounds.proves_assert(self.F, fv.f, t)
+            if memo[key]:
+                self.used_relational = getattr(self, "used_relational", 0) + 1
+        return memo[key]
 
     def deconst(self, v):
         if v[0] == "cref":
@@ -1155,6 +1186,9 @@ class Interp:
                     self.record(fv, kind, detail, t["line"], False, "always fails: %s" % self.ops_text(st, depth, fv, t["msg_ops"]))
                     frame["__dead"] = True
                     return ret
+                elif t["msg"] == "bounds" and self.structural_bounds(fv, t):
+                    self.record(fv, kind, detail, t["line"], True)
+                    self.refine_assert(st, depth, fv, t)
                 else:
                     self.record(fv, kind, detail, t["line"], False, "cannot exclude failure: %s" % self.ops_text(st, depth, fv, t["msg_ops"]))
                     self.refine_assert(st, depth, fv, t)
@@ -1615,6 +1649,9 @@ class Interp:
                 elif cond[0] == "i" and cond[1] == cond[2] != exp:
                     self.record(fv, kind, detail, t["line"], False, "always fails: %s" % self.ops_text(s, depth, fv, t["msg_ops"]))
                     return None
+                elif t["msg"] == "bounds" and self.structural_bounds(fv, t):
+                    self.record(fv, kind, detail, t["line"], True)
+                    self.refine_assert(s, depth, fv, t)
                 else:
                     self.record(fv, kind, detail, t["line"], False, "cannot exclude failure: %s" % self.ops_text(s, depth, fv, t["msg_ops"]))
                     self.refine_assert(s, depth, fv, t)
@@ -1733,6 +1770,9 @@ class Interp:
                 elif cond[0] == "i" and cond[1] == cond[2] != exp:
                     self.record(fv, kind, detail, t["line"], False, "always fails")
                     return None
+                elif t["msg"] == "bounds" and self.structural_bounds(fv, t):
+                    self.record(fv, kind, detail, t["line"], True)
+                    self.refine_assert(s, depth, fv, t)
                 else:
                     self.record(fv, kind, detail, t["line"], False, "cannot exclude failure: %s" % self.ops_text(s, depth, fv, t["msg_ops"]))
                     self.refine_assert(s, depth, fv, t)
